@@ -83,6 +83,7 @@ type PathCtx struct {
 	fcount   map[*ssa.Function]int64
 	seedVals map[string]uint64
 	originTag string
+	id       int
 	phase    int // 0 none, 1 = A, 2 = B (verifrt.Parallel)
 	fpR, fpW [3]map[*Object]string
 	inOnce   int
@@ -433,6 +434,14 @@ func (pc *PathCtx) flush(in *Interp) {
 		s.raw(a)
 		r := s.CheckSat("")
 		if r != "sat" {
+			if r == "unsat" && pc.exp.cfg.CrossCheck > 0 && pc.id%pc.exp.cfg.CrossCheck == 0 {
+				// second opinion on the query that closes this path class
+				v := s.CrossCheck()
+				pc.exp.noteCross(v)
+				if v == "sat" {
+					pc.events = append(pc.events, Event{Kind: "inconclusive", Label: "solver-disagreement", Msg: "z3 5.1.0 says unsat, z3 4.8.12 says sat on the closing query of a path class"})
+				}
+			}
 			s.raw("(pop 1)")
 			s.scope = s.scope[:0]
 			if r == "unknown" {
@@ -604,6 +613,7 @@ type Config struct {
 	TraceSMT      string
 	Deadline      time.Time
 	Tally         bool
+	CrossCheck    int
 	RetryMs       int
 }
 
@@ -627,6 +637,7 @@ type Explorer struct {
 	funcs   map[string]int64
 	pickN   map[string]int
 	decKinds map[string]int
+	cross    map[string]int
 }
 
 func (e *Explorer) tally(what, fn string) {
@@ -638,6 +649,15 @@ func (e *Explorer) tally(what, fn string) {
 		e.decKinds = map[string]int{}
 	}
 	e.decKinds[what+" @ "+fn]++
+	e.mu.Unlock()
+}
+
+func (e *Explorer) noteCross(v string) {
+	e.mu.Lock()
+	if e.cross == nil {
+		e.cross = map[string]int{}
+	}
+	e.cross[v]++
 	e.mu.Unlock()
 }
 
@@ -732,6 +752,7 @@ func (e *Explorer) runPath(solver *Solver, prefix []uint64, model map[string]uin
 		pc.modelOK = true
 	}
 	pc.evalMemo = map[*Term]uint64{}
+	pc.id = id
 	in.ex = pc
 	res = &PathResult{ID: id, Prefix: prefix}
 	defer func() {
